@@ -1088,6 +1088,21 @@ class Lowering:
         q = self.tu.qual[decl['id']]
         c = self.cfg.get('globals', {}).get(q)
         if c is None:
+            # a const integral with a constant initialiser is its value
+            t = ty(decl).strip()
+            dd = decl
+            if 'init' not in dd:
+                for nid, n2 in self.tu.by_id.items():
+                    if n2.get('kind') == 'VarDecl' and self.tu.qual.get(nid) == q and 'init' in n2:
+                        dd = n2
+                        break
+            if t.startswith('const ') and 'init' in dd and kids(dd):
+                base = t[6:].strip()
+                if base in C_BUILTIN or base in C_KNOWN_TYPEDEFS:
+                    sub = Ctx(ctx.fn)
+                    e = self.expr(kids(dd)[-1], sub)
+                    if not sub.pre:
+                        return '((%s)%s)' % (self.ctype(base), e)
             raise Unsupported('global %s not modelled' % q)
         return c
 
